@@ -67,11 +67,18 @@ func newOnce(x *vs.Exec, behaviour string) *onceState {
 	} else if b, ok := strings.CutPrefix(behaviour, "re-"); ok {
 		attach, behaviour = b, b
 	}
+	// "wild4-<proto>" / "wild6-<proto>": the plugin announces a wildcard TCP address (0.0.0.0:port, [::]:port)
+	tcp := ""
+	if b, ok := strings.CutPrefix(behaviour, "wild4-"); ok {
+		behaviour, tcp = b, "0.0.0.0:4567"
+	} else if b, ok := strings.CutPrefix(behaviour, "wild6-"); ok {
+		behaviour, tcp = b, "[::]:4568"
+	}
 	switch behaviour {
 	case "netrpc":
-		script = servePlugin(serveOpts{proto: "netrpc", plugins: ps})
+		script = servePlugin(serveOpts{proto: "netrpc", plugins: ps, tcpAddr: tcp})
 	case "grpc":
-		script = servePlugin(serveOpts{proto: "grpc", plugins: plugin.PluginSet{"p": &tagGRPCPlugin{tag: "t"}}})
+		script = servePlugin(serveOpts{proto: "grpc", plugins: plugin.PluginSet{"p": &tagGRPCPlugin{tag: "t"}}, tcpAddr: tcp})
 	case "badline":
 		script = func(r *scriptRunner) { fmt.Fprintf(r.stdout, "1|99|tcp|127.0.0.1:1\n"); r.waitKilled() }
 	case "badproto": // fails late: the line is well-formed but names a protocol the client does not allow
@@ -297,14 +304,14 @@ func init() {
 			}
 			var out []explore.Params
 			var rec func(prefix []string)
-			behs := []string{"netrpc", "grpc", "badline", "badproto", "silent", "rferr", "re-netrpc", "re-grpc", "tre-netrpc", "tre-grpc"}
+			behs := []string{"netrpc", "grpc", "badline", "badproto", "silent", "rferr", "re-netrpc", "re-grpc", "tre-netrpc", "tre-grpc", "wild4-netrpc", "wild6-grpc"}
 			rec = func(prefix []string) {
 				if len(prefix) > 0 {
 					for _, b := range behs {
 						if b == "silent" && len(prefix) > 3 {
 							continue // each failing Start costs the full timeout; keep the silent plugin to short histories
 						}
-						if strings.Contains(b, "re-") && len(prefix) > 4 {
+						if (strings.Contains(b, "re-") || strings.HasPrefix(b, "wild")) && len(prefix) > 4 {
 							continue
 						}
 						out = append(out, explore.Params{"beh": b, "seq": strings.Join(prefix, ",")})
